@@ -108,6 +108,10 @@ struct SlotOps {
     void (*read_cell)(const void *obj, const size_t *c, uint64_t *bits) = nullptr;
     void (*lookup)(const void *obj, const double *x, uint64_t *bits) = nullptr;
     void (*lookup_va)(const void *obj, const double *x, uint64_t *bits) = nullptr; // at(scalar, scalar, ...) instead of at(coordinate_t)
+    void (*swap_adl)(void *a, void *b) = nullptr; // using std::swap; swap(a, b);
+    void *(*hold_view)(const void *obj) = nullptr; // a field_view that outlives the operation (heap-allocated)
+    void (*release_view)(void *view) = nullptr;
+    void (*held_lookup)(const void *view, const double *x, uint64_t *bits, bool scalar_form) = nullptr;
     // group io
     bool has_io = false;
     bool has_dmp = false;
